@@ -256,3 +256,190 @@ Theorem bundle_v1_store_reestablishes_invariant :
     v1_wf s0 -> flen (v1dat s0) + total_len b <= 1099511627776 -> v1_batch_ok b ->
     v1_wf (v1_apply_all s0 (v1_store_ops s0 b)).
 Proof. exact v1_store_wf. Qed.
+
+(* ---- the seed progress file (ProgressStore.write / load) as an instance of write_atomic: for every prior state,
+   content and crash point a continued seed loads the previous progress or the complete new one - never the empty
+   dictionary in place of an existing progress, never a half-written pickle (`unpickle` is external; None stands
+   for the unpickling errors that load answers with {}). *)
+Theorem crash_safe_progress_store :
+  forall (A : Type) (unpickle : list Z -> option A) (empty : A) s p sfx d s',
+    In s' (crash_states s (progress_write_ops s p sfx d)) ->
+    (forall x, s p = Some (NLink x) -> x <> tmp_of p sfx) ->
+    progress_load unpickle empty s' p = progress_load unpickle empty s p \/
+    progress_load unpickle empty s' p = match unpickle d with Some st => st | None => empty end.
+Proof. exact progress_write_crash_safe. Qed.
+
+Theorem progress_store_publishes :
+  forall (A : Type) (unpickle : list Z -> option A) (empty : A) s p sfx d,
+    snd (write_atomic_ops s p sfx d) = true ->
+    progress_load unpickle empty (apply_ops s (progress_write_ops s p sfx d)) p =
+    match unpickle d with Some st => st | None => empty end.
+Proof. exact progress_write_completes. Qed.
+
+(* ---- the legend cache (LegendCache.store / load), same instance *)
+Theorem crash_safe_legend_store :
+  forall s p sfx d s',
+    In s' (crash_states s (legend_store_ops s p sfx d)) ->
+    (forall x, s p = Some (NLink x) -> x <> tmp_of p sfx) ->
+    legend_load s' p = legend_load s p \/ legend_load s' p = RData d.
+Proof. exact legend_store_crash_safe. Qed.
+
+(* ================================================================================================ *)
+(* Batches that span several bundle files.  `mstate` maps a bundle id to its bundle file; an operation is a raw
+   write on the file of one bundle; `m_crash_states` = every prefix of the interleaved sequence plus the permitted
+   tear of the next write; `m_proj b ops` = the subsequence of raw writes on bundle b (what the correspondence checks
+   file by file); `m_store_ops` = CompactCacheBase.store_tiles when the tiles are not all in one bundle file: one
+   BundleV2.store_tiles([tile]) per tile, in order. *)
+
+(* any interleaving whose per-file subsequences obey the discipline: every address (bundle, slot) reads old or the
+   complete bytes of a tile of the batch stored for that address *)
+Theorem crash_safe_multi_bundle_v2 :
+  forall (bt : Z -> batch) st ops st' b slot,
+    (forall x, v2_wf (st x)) ->
+    (forall x, v2_raw_ok (bt x) (flen (st x)) (st x) (m_proj x ops) = true) ->
+    (forall x s, has_data (bt x) s [] = false) ->
+    In st' (m_crash_states st ops) -> 0 <= slot < SLOTS ->
+    v2_read (st' b) slot = v2_read (st b) slot \/
+    exists dd, has_data (bt b) slot dd = true /\ dd <> [] /\ v2_read (st' b) slot = RData dd.
+Proof. exact m_crash_safe. Qed.
+
+(* the modelled writer over several bundle files, every prior state with the invariant, every batch *)
+Theorem crash_safe_multi_bundle_v2_store :
+  forall st tiles st' b slot,
+    (forall x, v2_wf (st x)) ->
+    (forall x, flen (st x) + total_len (m_batch_of x tiles) <= P40) ->
+    (forall bb s d, In (bb, s, d) tiles -> 0 <= s < SLOTS /\ d <> [] /\ zlen d < 16777216) ->
+    In st' (m_crash_states st (m_store_ops st tiles)) -> 0 <= slot < SLOTS ->
+    v2_read (st' b) slot = v2_read (st b) slot \/
+    exists dd, has_data (m_batch_of b tiles) slot dd = true /\ dd <> [] /\ v2_read (st' b) slot = RData dd.
+Proof. exact m_store_crash_safe. Qed.
+
+(* addresses (any bundle, any slot) for which the batch holds no tile are unaffected *)
+Theorem multi_bundle_v2_others_unaffected :
+  forall st tiles st' b slot,
+    (forall x, v2_wf (st x)) ->
+    (forall x, flen (st x) + total_len (m_batch_of x tiles) <= P40) ->
+    (forall bb s d, In (bb, s, d) tiles -> 0 <= s < SLOTS /\ d <> [] /\ zlen d < 16777216) ->
+    In st' (m_crash_states st (m_store_ops st tiles)) -> 0 <= slot < SLOTS ->
+    (forall d, ~ In (b, slot, d) tiles) ->
+    v2_read (st' b) slot = v2_read (st b) slot.
+Proof. exact m_store_others_unaffected. Qed.
+
+Theorem multi_bundle_v2_store_reestablishes_invariant :
+  forall st tiles,
+    (forall x, v2_wf (st x)) ->
+    (forall x, flen (st x) + total_len (m_batch_of x tiles) <= P40) ->
+    (forall bb s d, In (bb, s, d) tiles -> 0 <= s < SLOTS /\ d <> [] /\ zlen d < 16777216) ->
+    forall x, v2_wf (m_apply_all st (m_store_ops st tiles) x).
+Proof. exact m_store_wf. Qed.
+
+(* version 1 (each bundle = .bundle + .bundlx) *)
+Theorem crash_safe_multi_bundle_v1 :
+  forall (bt : Z -> batch) st ops st' b slot,
+    (forall x, v1_wf (st x)) ->
+    (forall x, v1_raw_ok (bt x) (flen (v1dat (st x))) (st x) (m1_proj x ops) = true) ->
+    (forall x s, has_data (bt x) s [] = false) ->
+    In st' (m1_crash_states st ops) -> 0 <= slot < SLOTS ->
+    v1_read (st' b) slot = v1_read (st b) slot \/
+    exists dd, has_data (bt b) slot dd = true /\ dd <> [] /\ v1_read (st' b) slot = RData dd.
+Proof. exact m1_crash_safe. Qed.
+
+Theorem crash_safe_multi_bundle_v1_store :
+  forall st tiles st' b slot,
+    (forall x, v1_wf (st x)) ->
+    (forall x, flen (v1dat (st x)) + total_len (m_batch_of x tiles) <= 1099511627776) ->
+    (forall bb s d, In (bb, s, d) tiles -> 0 <= s < SLOTS /\ d <> [] /\ zlen d < 4294967296) ->
+    In st' (m1_crash_states st (m1_store_ops st tiles)) -> 0 <= slot < SLOTS ->
+    v1_read (st' b) slot = v1_read (st b) slot \/
+    exists dd, has_data (m_batch_of b tiles) slot dd = true /\ dd <> [] /\ v1_read (st' b) slot = RData dd.
+Proof. exact m1_store_crash_safe. Qed.
+
+Theorem multi_bundle_v1_others_unaffected :
+  forall st tiles st' b slot,
+    (forall x, v1_wf (st x)) ->
+    (forall x, flen (v1dat (st x)) + total_len (m_batch_of x tiles) <= 1099511627776) ->
+    (forall bb s d, In (bb, s, d) tiles -> 0 <= s < SLOTS /\ d <> [] /\ zlen d < 4294967296) ->
+    In st' (m1_crash_states st (m1_store_ops st tiles)) -> 0 <= slot < SLOTS ->
+    (forall d, ~ In (b, slot, d) tiles) ->
+    v1_read (st' b) slot = v1_read (st b) slot.
+Proof. exact m1_store_others_unaffected. Qed.
+
+(* ================================================================================================ *)
+(* A complete store call on a compact cache directory: initialisation of a missing bundle (and, for v1, index) file
+   by write_atomic AND the in-place phase as ONE operation list.  `bdir` maps the paths of the directory to files
+   (write logs); `b_crash_states` = every prefix + tears (a temp file holds any prefix of its content; appends and
+   header rewrites tear at any byte; index entries are atomic); a missing bundle file reads "missing" for every
+   slot (BundleV2._readonly / BundleIndexV1.readonly). *)
+
+(* v2: every directory state (bundle present with the invariant, or absent), every batch, every crash point of
+   BundleV2.store_tiles: each slot reads as before or the complete new tile *)
+Theorem crash_safe_bundle_v2_complete_store :
+  forall s p sfx b s' slot,
+    (forall f, s p = Some f -> v2_wf f /\ flen f + total_len b <= P40) ->
+    V2_REC + total_len b <= P40 -> v2_batch_ok b ->
+    In s' (b_crash_states s (v2_dir_store_ops s p sfx b)) -> 0 <= slot < SLOTS ->
+    v2_dir_read s' p slot = v2_dir_read s p slot \/
+    exists dd, has_data b slot dd = true /\ dd <> [] /\ v2_dir_read s' p slot = RData dd.
+Proof. exact v2_dir_store_crash_safe. Qed.
+
+(* every other file of the directory (other bundles, index files, stale temp files) is untouched in every crash state *)
+Theorem bundle_v2_complete_store_others_untouched :
+  forall s p sfx b s' q,
+    In s' (b_crash_states s (v2_dir_store_ops s p sfx b)) ->
+    q <> p -> q <> tmp_of p sfx -> s' q = s q.
+Proof. exact v2_dir_store_others. Qed.
+
+(* the completed call leaves a bundle file with the invariant (so the theorem applies to the next call) *)
+Theorem bundle_v2_complete_store_reestablishes_invariant :
+  forall s p sfx b,
+    (forall f, s p = Some f -> v2_wf f /\ flen f + total_len b <= P40) ->
+    V2_REC + total_len b <= P40 -> v2_batch_ok b ->
+    (s p = None -> bd_exists s (tmp_of p sfx) = false) ->
+    exists f, b_apply_all s (v2_dir_store_ops s p sfx b) p = Some f /\ v2_wf f.
+Proof. exact v2_dir_store_completes. Qed.
+
+(* v1: data file pd and index file pi, each initialised by its own write_atomic when missing (data file first), then
+   the in-place phase.  `v1_dir_eff` = the bundle the in-place phase works on (missing files replaced by their initial
+   content).  Side conditions: the two paths and their temp names are distinct; no index without its data file (a
+   crash never produces that: the data file is created first); an existing data file whose index is missing reads
+   "missing" through a fresh index (its size table is still zero). *)
+Theorem crash_safe_bundle_v1_complete_store :
+  forall s pd pi sfx1 sfx2 c r b s' slot,
+    pd <> pi -> tmp_of pd sfx1 <> pi -> tmp_of pi sfx2 <> pd ->
+    (s pd = None -> s pi = None) ->
+    v1_wf (v1_dir_eff s pd pi c r) ->
+    flen (v1dat (v1_dir_eff s pd pi c r)) + total_len b <= 1099511627776 -> v1_batch_ok b ->
+    (s pi = None -> v1_read (v1_dir_eff s pd pi c r) slot = RMissing) ->
+    In s' (b_crash_states s (v1_dir_store_ops s pd pi sfx1 sfx2 c r b)) -> 0 <= slot < SLOTS ->
+    v1_dir_read s' pd pi slot = v1_dir_read s pd pi slot \/
+    exists dd, has_data b slot dd = true /\ dd <> [] /\ v1_dir_read s' pd pi slot = RData dd.
+Proof. exact v1_dir_store_crash_safe. Qed.
+
+Theorem bundle_v1_complete_store_others_untouched :
+  forall s pd pi sfx1 sfx2 c r b s' q,
+    In s' (b_crash_states s (v1_dir_store_ops s pd pi sfx1 sfx2 c r b)) ->
+    q <> pd -> q <> pi -> q <> tmp_of pd sfx1 -> q <> tmp_of pi sfx2 -> s' q = s q.
+Proof. exact v1_dir_store_others. Qed.
+
+Theorem bundle_v1_complete_store_reestablishes_invariant :
+  forall s pd pi sfx1 sfx2 c r b,
+    pd <> pi -> tmp_of pd sfx1 <> pi -> tmp_of pi sfx2 <> pd ->
+    v1_wf (v1_dir_eff s pd pi c r) ->
+    flen (v1dat (v1_dir_eff s pd pi c r)) + total_len b <= 1099511627776 -> v1_batch_ok b ->
+    (s pd = None -> bd_exists s (tmp_of pd sfx1) = false) ->
+    (s pi = None -> bd_exists s (tmp_of pi sfx2) = false) ->
+    exists st, b_apply_all s (v1_dir_store_ops s pd pi sfx1 sfx2 c r b) pd = Some (v1dat st) /\
+               b_apply_all s (v1_dir_store_ops s pd pi sfx1 sfx2 c r b) pi = Some (v1idx st) /\ v1_wf st.
+Proof. exact v1_dir_store_completes. Qed.
+
+(* the first store into a v1 bundle that does not exist yet: nothing but "missing" or the complete new tile, at every
+   crash point of both initialisations and of the in-place phase *)
+Theorem crash_safe_bundle_v1_first_store :
+  forall s pd pi sfx1 sfx2 c r b s' slot,
+    pd <> pi -> tmp_of pd sfx1 <> pi -> tmp_of pi sfx2 <> pd ->
+    s pd = None -> s pi = None ->
+    V1_REC + total_len b <= 1099511627776 -> v1_batch_ok b ->
+    In s' (b_crash_states s (v1_dir_store_ops s pd pi sfx1 sfx2 c r b)) -> 0 <= slot < SLOTS ->
+    v1_dir_read s' pd pi slot = RMissing \/
+    exists dd, has_data b slot dd = true /\ dd <> [] /\ v1_dir_read s' pd pi slot = RData dd.
+Proof. exact v1_dir_store_crash_safe_fresh. Qed.
